@@ -66,18 +66,13 @@ func sortedKeys(m map[string]bool) []string {
 	return out
 }
 
+// relation of board b to the addressed board: "base" if the addressed board starts from b's
+// content (root for a scenario, the previous step for a step, ...), else "unrelated".
 func relation(bs []board, b, addr int) string {
-	switch {
-	case b == 0:
-		return "root"
-	case bs[addr].parent == b:
-		return "parent"
-	case bs[b].parent == bs[addr].parent:
-		return "sibling-" + bs[b].kind
-	case bs[b].parent == addr:
-		return "child-" + bs[b].kind
+	if inheritsFrom(bs, addr, b) {
+		return "base"
 	}
-	return "other-" + bs[b].kind
+	return "unrelated"
 }
 
 // ---------------------------------------------------------------------------------------
@@ -101,6 +96,19 @@ func (k *c36) check(o *stepObs) {
 		sig := "edited-source-does-not-compile:" + name
 		if o.postErr != nil && strings.Contains(o.postErr.Error(), "compiler panic") {
 			sig = "edited-source-crashes-compiler:" + name
+		}
+		if c.kind == opUpdateImport {
+			if c.impNew == nil {
+				sig += ":remove"
+			} else {
+				sig += ":repath"
+			}
+			switch e := o.postErr.Error(); {
+			case strings.Contains(e, "indexed edge does not exist"):
+				sig += ":dangling-connection-reference"
+			case strings.Contains(e, "near"):
+				sig += ":dangling-near"
+			}
 		}
 		x.fail(o.step, sig, "%s succeeded but the source it produced does not compile: %v\n%s", c, o.postErr, o.ctx())
 		return
@@ -368,8 +376,8 @@ func (k *c37) check(o *stepObs) {
 					continue
 				}
 			}
-			if c.kind == opCreateEdge && pi.els[m].edge && len(only(ch, func(a string) bool { return a == "@absid" || a == "@index" })) == 0 {
-				continue
+			if c.kind == opCreateObj && len(only(ch, func(a string) bool { return a == "@absid" || a == "@id" })) == 0 {
+				continue // the board's own object merges with a new base object whose name differs in letter case only
 			}
 			x.fail(o.step, name+":other-element-changed@inheriting-board", "%s: board %v element %s changed %v\n%s", c, x.boards[i].path, pi.els[m].absID, ch, o.ctx())
 			return
@@ -513,6 +521,10 @@ func (k *c38) check(o *stepObs) {
 				what = "child"
 			case pre.under(m, T.m):
 				what = "descendant"
+			}
+			if o.postBs[pj].g.IsFolderOnly {
+				// the board's block became empty, the formatter prints it as a bare key, which is a folder
+				what = "rest-of-emptied-board"
 			}
 			x.fail(o.step, "delete-obj:"+what+"-lost"+suffix, "%s: %s (%s) is gone too; %s\n%s", c, m, e.absID, d, o.ctx())
 			return
